@@ -19,6 +19,10 @@ import (
 // reference codec of package wire (written from the RFC layouts). In-process, no bubble.
 
 func init() {
+	sim.RegisterKind("chandata-number-altered", "C11", "C08")
+}
+
+func init() {
 	sim.RegisterKind("chandata-encode", "C11")
 	sim.RegisterKind("chandata-roundtrip", "C11")
 	sim.RegisterKind("chandata-decode-predicate", "C11")
@@ -66,8 +70,25 @@ func tail(b []byte) []byte {
 	return b
 }
 
+// c11ChanOversize: a payload that the 16-bit length field cannot announce. What Encode makes of
+// the length is outside the statement; the channel number on the wire is still the message's.
+func c11ChanOversize(rec *sim.Rec, num uint16, n int) {
+	guard(rec, "ChannelData.Encode(oversize)", func() {
+		cd := proto.ChannelData{Number: proto.ChannelNumber(num), Data: make([]byte, n)}
+		cd.Encode()
+		if len(cd.Raw) < 4 || binary.BigEndian.Uint16(cd.Raw[:2]) != num {
+			rec.Violate("chandata-number-altered", fmt.Sprintf("oversize/%d", n>>16), "Encode(num=0x%04x, %d payload bytes) put channel number 0x%x on the wire", num, n, head(cd.Raw)[:min(2, len(cd.Raw))])
+		}
+		rec.FP("chandata/oversize-number-intact/%d", n>>16)
+	})
+}
+
 func c11ChanRoundTrip(rec *sim.Rec, num uint16, payload []byte) {
 	c11ChanReuse(rec, num, payload)
+	if len(payload)%1024 == 3 && num%257 == 0 {
+		c11ChanOversize(rec, num, 65536+len(payload))
+		c11ChanOversize(rec, num, 3*65536+len(payload))
+	}
 	guard(rec, "ChannelData.Encode/Decode", func() {
 		cd := proto.ChannelData{Number: proto.ChannelNumber(num), Data: payload}
 		cd.Encode()
